@@ -28,7 +28,11 @@ def main():
         subprocess.check_call(['git', '-C', '/repo', 'worktree', 'add', '--detach', wt, 'HEAD'],
                               stdout=subprocess.DEVNULL, stderr=subprocess.DEVNULL)
         try:
-            subprocess.check_call(['git', '-C', wt, 'apply', patch])
+            if subprocess.call(['git', '-C', wt, 'apply', patch]) != 0 and \
+                    subprocess.call(['git', '-C', wt, 'apply', '--3way', patch]) != 0:
+                print('%s: PATCH DOES NOT APPLY to the current HEAD' % seed, flush=True)
+                record(seed, 'apply', dict(exit=2, violations=0, signatures=[], first='patch does not apply', wall_s=0))
+                continue
             for chk in checks.split(','):
                 out = tempfile.mkdtemp(prefix='seedout.')
                 env = dict(os.environ, VERIF_REPO=wt, VERIF_OUT=out)
